@@ -25,6 +25,9 @@ def run(ctx):
     ctx.r.rule("DU", "dual = compose with exactly one inverse and one "
                      "transpose")
     ctx.do(R.rule_had)
+    ctx.do(MI.rule_defer1, REP, "Representation")
+    ctx.do(MI.rule_resplit1, REP)
+    ctx.do(MI.rule_genacc1, REP)
     ctx.do(R.rule_rep_structure)
     ctx.do(R.rule_w1)
     ctx.do(n1, ["geometry_tools/representation.py"], scope=ctx.scope(ENTRIES))
